@@ -40,6 +40,52 @@ for a in u.QUANTITIES:
             except Exception as e:
                 probe["%s %s %s" % (a.__name__, op, b.__name__)] = ["EXC", type(e).__name__, str(e)[:60]]
 out["probe"] = probe
+# bounded semantic sweep of construction / conversion / same-type arithmetic for every class and every unit
+viol = []
+nchecks = 0
+vals = [0.0, -0.0, 1.5, -2.0, 3, 1e-9]
+for q in u.QUANTITIES:
+    units = list(q._units)
+    for i, un in enumerate(units):
+        f = q._units[un]
+        if not isinstance(f, (int, float)):
+            continue
+        for v in vals:
+            nchecks += 1
+            try:
+                x = q(v, un)
+                if x.si != v * f or x.unit != un:
+                    viol.append("%s(%r,%r): si %r unit %r" % (q.__name__, v, un, x.si, x.unit))
+                if abs(x.displayvalue - v) > 1e-9 * max(1.0, abs(v)):
+                    viol.append("%s(%r,%r).displayvalue = %r" % (q.__name__, v, un, x.displayvalue))
+                other = units[(i + 1) % len(units)]
+                y = x.as_unit(other)
+                if y.si != x.si or y.unit != other or type(y) is not q:
+                    viol.append("%s(%r,%r).as_unit(%r): si %r unit %r" % (q.__name__, v, un, other, y.si, y.unit))
+                z = q(2.0, other)
+                for name, r, exp in (("+", x + z, x.si + z.si), ("-", x - z, x.si - z.si), ("neg", -x, -x.si), ("abs", abs(x), abs(x.si))):
+                    if r.si != exp or r.unit != un or type(r) is not q:
+                        viol.append("%s(%r,%r) %s %s(2.0,%r): si %r (exp %r) unit %r (exp %r)" % (q.__name__, v, un, name, q.__name__, other, r.si, exp, r.unit, un))
+                if (x == z) != (x.si == z.si) or (x < z) != (x.si < z.si) or (x >= z) != (x.si >= z.si) or (x != z) != (x.si != z.si):
+                    viol.append("%s(%r,%r) comparisons with %s(2.0,%r) disagree with SI values" % (q.__name__, v, un, q.__name__, other))
+                str(x)
+            except Exception as e:
+                viol.append("%s(%r,%r): %s: %s" % (q.__name__, v, un, type(e).__name__, e))
+# mixed-type refusal
+for a in u.QUANTITIES[:41]:
+    b = u.QUANTITIES[(u.QUANTITIES.index(a) + 1) % len(u.QUANTITIES)]
+    for op in ("+", "-", "<"):
+        nchecks += 1
+        try:
+            if op == "+": a(1.0) + b(1.0)
+            elif op == "-": a(1.0) - b(1.0)
+            else: a(1.0) < b(1.0)
+            viol.append("%s %s %s accepted" % (a.__name__, op, b.__name__))
+        except (ValueError, TypeError):
+            pass
+out["sweep_checks"] = nchecks
+out["sweep_violations"] = viol[:30]
+out["sweep_violation_count"] = len(viol)
 json.dump(out, sys.stdout)
 '''
 
@@ -203,3 +249,10 @@ def load(reg):
                     % (checked, unparsed), True, ""))
         return out
     reg.ground_obligation("compound units agree with their component units", C17, compound_units)
+
+    def sweep(table):
+        d = dump_tables()
+        return [("BOUNDED: construction / display value / as_unit / + - neg abs keep the left unit and act on SI values / comparisons / "
+                 "str() for every class x every declared unit x 6 values, mixed-type + - < refused (%d native evaluations)" % d["sweep_checks"],
+                 d["sweep_violation_count"] == 0, "; ".join(d["sweep_violations"][:4]))]
+    reg.ground_obligation("BOUNDED stand-in: native sweep of Quantity construction, conversion and same-type arithmetic", C17, sweep)
